@@ -206,18 +206,19 @@ Pow10(k) == CASE k = 0 -> 1 [] k = 1 -> 10 [] k = 2 -> 100 [] k = 3 -> 1000 [] k
 
 \* x e y  =  x * 10^y
 EV(a, b) ==
-  IF IsZero(a) THEN Zero
-  ELSE IF a.ex /\ b.ex THEN
-     IF b.d = 1 THEN
-        LET k == b.n IN
-        IF k >= 0 /\ k <= 4 THEN Qf(a.n * Pow10(k), a.d, a.fx)
-        ELSE IF k < 0 /\ k >= -4 THEN Qf(a.n, a.d * Pow10(-k), FALSE)
-        ELSE IF k > 300 THEN Raise("overflow")
-        ELSE IF k < -340 THEN Zero
-        ELSE Ix(a.sg, "mid")
-     ELSE (IF b.n > 300 * b.d THEN Raise("overflow") ELSE Ix(a.sg, "mid"))
+  IF b.ex /\ b.n > 300 * b.d THEN Raise("overflow")      \* 10^y alone overflows
   ELSE IF Huge(b) THEN (IF b.sg = "n" THEN Zero ELSE Raise("overflow"))
+  ELSE IF ~b.ex THEN            \* exponent known only roughly: may still overflow
+       (IF Tiny(b) THEN a ELSE IF Huge(a) THEN Raise("overflow") ELSE Ix(IF a.ex THEN "u" ELSE a.sg, "mid"))
+  ELSE IF IsZero(a) THEN Zero
   ELSE IF Huge(a) THEN Raise("overflow")
+  ELSE IF ~a.ex THEN Ix(a.sg, "mid")
+  ELSE IF b.d = 1 THEN
+       LET k == b.n IN
+       IF k >= 0 /\ k <= 4 THEN Qf(a.n * Pow10(k), a.d, a.fx)
+       ELSE IF k < 0 /\ k >= -4 THEN Qf(a.n, a.d * Pow10(-k), FALSE)
+       ELSE IF k < -340 THEN Zero
+       ELSE Ix(a.sg, "mid")
   ELSE Ix(a.sg, "mid")
 
 RECURSIVE PowAcc(_, _, _)
@@ -400,11 +401,12 @@ RenderFull(a) ==
 (* evaluation over the documented table, all binary operators          *)
 (* left-associative                                                    *)
 (* ------------------------------------------------------------------ *)
+WordUnary == UnaryNames \ {"-", "+"}
 MWPrec(tag) == CASE tag \in {"u-", "u+"} -> 10
                  [] tag = "(" -> -1
-                 [] tag \in UnaryNames -> 9
+                 [] tag \in WordUnary -> 9
                  [] OTHER -> PrecB(tag)
-MWUnary(tag) == tag \in {"u-", "u+"} \cup UnaryNames
+MWUnary(tag) == tag \in {"u-", "u+"} \cup WordUnary
 MWOk == Zero
 MWSt(opnd, ops, ex, err) == [opnd |-> opnd, ops |-> ops, ex |-> ex, err |-> err]
 MWFail(st, e) == [st EXCEPT !.err = e]
@@ -439,7 +441,7 @@ MWStep(st, t) ==
         ELSE MWSt(Append(st.opnd, IF IsNum(t) THEN NumVal(t) ELSE IF t = "." THEN Zero ELSE Ix("p", "mid")),
                   st.ops, FALSE, st.err))
   ELSE IF t \in {"+", "-"} /\ st.ex THEN MWSt(st.opnd, Append(st.ops, IF t = "-" THEN "u-" ELSE "u+"), TRUE, st.err)
-  ELSE IF t \in UnaryNames \ {"+", "-"} THEN
+  ELSE IF t \in WordUnary THEN
        (IF ~st.ex THEN MWFail(st, Err("syntax")) ELSE MWSt(st.opnd, Append(st.ops, t), TRUE, st.err))
   ELSE IF t = "(" THEN
        (IF ~st.ex THEN MWFail(st, Err("syntax")) ELSE MWSt(st.opnd, Append(st.ops, "("), TRUE, st.err))
